@@ -45,3 +45,44 @@ reg('C20', 'exploration',
     'Post-condition contract on Source.from_ascii (every successful parse compared with an independent reading of the line; accepted malformed lines flagged) plus outcome classification at the call boundary (object / EOFError / other error) for every column count 0..3n+6, n<=12, all flag vectors n<=3, every bad flag token in every position; round trips to_ascii, dict, pickle.',
     TRUST + ' Flag tokens are plain decimal integers.',
     'runtime contract + outcome classification, exhaustive over column counts / small flag alphabets', '4/C20')
+
+reg('C06', 'exploration',
+    'Post-condition contracts on Filter.rebin and Filter.normalize against an exact-rational (fractions.Fraction) integration of the piecewise-linear response over midpoint bins restricted to the overlap (per bin, and sum = overlap integral), for filters/grids in either storage order incl. constructed edge coincidences and text-file filters; then the contents of convolved/<filter>.fits written by convolve_model_dir (v1 and v2) against sum F R_ref and sqrt(sum (E R_ref)^2) from package truth; flat spectrum returns c.',
+    TRUST + ' 1e-9 relative + 1e-12 of sum|R|; strictly monotone grids.',
+    'runtime contract + exact-rational reference model; file-content oracle from package truth', '4/C06')
+reg('C07', 'exploration',
+    'Twin per-file/cube packages from one truth are convolved by the real convolve_model_dir: audit-hook trace of files written, file contents read with plain astropy (row order = parameter table / cube order, row X holds truth_X x R_ref per aperture, FILTWAV, apertures), snapshot/post-condition on ConvolvedFluxes.sort_to_match (rows stay attached to their labels), twin equality, and fits from {v1,v2}x{memmap on,off} against the C01/C02 numeric reference.',
+    TRUST + ' rtol 1e-9 (float64) / 1e-5 (float32 storage).',
+    'file-effect trace + content oracle + post-condition contract; differential twins', '4/C07')
+reg('C08', 'exploration',
+    'End-to-end differential monitor: convolve_model_dir -> fit() -> FitInfoFile -> write_parameters run un-mocked on truth-generated packages with photometry synthesised through the reference convolution; rank-1 must be the planted model with the reference fitter\'s (chi^2, A_V, scale) and the planted model\'s own parameter row printed next to it; monitors of C05/C06/C09/C13/C14/C20 attached passively.',
+    TRUST + ' Degenerate plants (another model within margin) are regenerated and counted.',
+    'end-to-end differential monitor with passive contracts', '4/C08')
+reg('C09', 'exploration',
+    'Post-condition contract on FitInfo.filter_table (fires inside the three writers and plot_params_1d/2d) against truth parameter rows by model name; the text written by write_parameters, write_parameter_ranges and extract_parameters is parsed and compared (rank, name, chi2/av/scale, parameter row, n_data, n_fits, min/best/max triples, placeholder) for every parameter-file permutation class, 1..4 columns, additional dictionaries, file/object/list inputs, selectors yielding 0/1/some/all fits.',
+    TRUST + ' Printed precision 5e-4; position-encoding parameter values.',
+    'runtime contract + output-parsing oracle', '4/C09')
+reg('C10', 'exploration',
+    'Trace checking: recording probes at Source.from_ascii, Fitter.fit, FitInfo.keep, FitInfoFile.write plus the audit-hook file trace during one real fit() run; offline checker: written names = eligible lines in order once each, each record bit-identical to an independent object-interface fit after the selector, metadata read back unchanged; then every post-processing function with file / object / list inputs (outputs equal, inputs unchanged by canonical snapshots) and sequences of <=3 calls with different selectors on the same in-memory results vs the file.',
+    TRUST + ' filter_output not driven on records with zero fits; plot_params only in thorough.',
+    'event-trace recording + offline trace checker; snapshot comparison of passed objects', '4/C10')
+reg('C13', 'exploration',
+    'snapshot+post-condition contracts on ConvolvedFluxes.interpolate, SED.interpolate and SED.interpolate_variable against a python bisect interpolation (exact at knots, linear between, clamp above, identity untouched, table not modified); refusals below the table observed at the call boundary; requests in au/pc/cm and bare AU numbers against tables stored in au or cm.',
+    TRUST + ' Smallest knot requested only in the table\'s own unit; 0.999*a_max clamp band for the plotting variant.',
+    'runtime contracts with snapshots + reference interpolation', '4/C13')
+reg('C16', 'exploration',
+    'File-effect trace (audit hook) and contents of convolved/MOnnn.fits plus the returned table for every window (ends below/on/between/above tabulated wavelengths) x every chunk size (via max_ram), exhaustive for n_wav<=3 (quick) / <=5 (thorough); file set must be identical across chunk sizes; cube packages: a wavelength "filter" selects the nearest tabulated slice.',
+    TRUST + ' Window end on a wavelength: either; empty window: zero files, empty table or exception.',
+    'file-effect trace + content oracle, exhaustive small scope over windows x chunk sizes', '4/C16')
+reg('C17', 'exploration',
+    'The LineCollection returned by plot(output_dir=None) is checked for every display mode, object and file input: curve count = selected fits x apertures shown, best fit last, and at each fitted wavelength the curve for that filter\'s aperture passes through the stored prediction and through the value recomputed from package truth (aperture interpolation, d^-2, reddening); generators guarantee that any wrong A_V/scale/aperture moves the curve by >=2% (tolerance 5e-4).',
+    TRUST + ' KPC constant offset 2.089e-4 accepted; 0.999*a_max clamp band in the default mode.',
+    'output-boundary monitor with truth oracle', '4/C17')
+reg('C18', 'exploration',
+    'Trace checking of filter_output: pre-condition probe on FitInfoFile.write records (writer, source) events, audit-hook trace shows exactly the two output files, records read back from both outputs; offline: partition of the input, bit-identical records, order preserved, good <=> best chi^2 (per fitted point) below the threshold; chi/cpd, auto/explicit names, file/list input, NaN/inf/tied best values.',
+    TRUST + ' Thresholds never equal an attained value; every record has a best fit.',
+    'event trace + offline conservation/partition checker', '4/C18')
+reg('C19', 'fault_enumeration',
+    'Every truncation offset of fit output files written by the real fit() (1..4 records, with/without predicted fluxes) is read back: yielded records must be a bit-identical prefix of the complete records located with plain pickle, then a clean end or an exception. Writer-side faults: ENOSPC after N bytes through a proxy handle (bytes on disk must be a prefix), SIGKILL of a fit() process, and an strace of the output fd (sequential write()s only) in the thorough tier.',
+    TRUST + ' A crash leaves a byte prefix (supported by the strace observation).',
+    'fault injection (truncation enumeration, ENOSPC proxy, SIGKILL, strace) + prefix oracle', '4/C19')
